@@ -324,7 +324,13 @@ def run_shard(shard, tier, acc):
                 run_one(keys, "alphabetical", lambda ip: SortFieldsAlphabeticallyMiddleware(allow_inplace_modification=ip), acc)
                 run_one(keys, "normalize", lambda ip: NormalizeFieldKeys(allow_inplace_modification=ip), acc)
                 if n <= 2:
-                    for order, cs in ((("strasse", "\xe9"), False), (("Stra\xdfe",), True), (("\u0130", "s"), False)):
+                    for order, cs in ((("strasse", "\xe9"), False), (("Stra\xdfe",), True), (("\u0130", "s"), False), (("Stra\xdfe", "\xc9"), False), (("\u017f", "e\u0301"), False)):
+                        if not cs:
+                            # "case-insensitively" is decided where lower() and casefold() agree on which of the keys involved are the same
+                            allk = list(order) + list(keys)
+                            if any((a.lower() == b.lower()) != (a.casefold() == b.casefold()) for a in allk for b in allk):
+                                acc.count("unicode_case_reading_dependent_skipped")
+                                continue
                         folded = list(order) if cs else [k.lower() for k in order]
                         rank = (lambda k, o=folded: o.index(k) if k in o else len(o)) if cs else (lambda k, o=folded: o.index(k.lower()) if k.lower() in o else len(o))
                         run_one(keys, f"custom:{','.join(order)}:{'cs' if cs else 'ci'}", lambda ip, o=order, c=cs: SortFieldsCustomMiddleware(order=tuple(o), case_sensitive=c, allow_inplace_modification=ip), acc, rank)
